@@ -272,12 +272,15 @@ JudgeSignMut(e, c) ==
 (* ======================================================================= *)
 (* verify (all entry points)                                               *)
 (* ======================================================================= *)
+(* events written by the call-tracing hook (src/verif_trace.rs) or the command line recorder: one entry point observed *)
+Recorded(e) == "meta" \in DOMAIN e /\ "recorder" \in DOMAIN e.meta
 JudgeVerify(e) ==
     LET exp == SpecVerify(e.alg, B(e.msg), B(e.sig), B(e.pk))
         want == IF exp THEN "ok" ELSE "err"
         outcomes == <<e.res, e.vk_from, e.sig_from, e.vk_sig, e.vk_ref>>
         anyPanic == \E i \in 1..5 : outcomes[i] = "panic"
-        entry(kind, got) == IF got = "panic" THEN <<>>      \* reported once as "panic"
+        (* "na": the recorder did not exercise this entry point (call tracing sees the free function only) *)
+        entry(kind, got) == IF got = "panic" \/ (got = "na" /\ Recorded(e)) THEN <<>>
                             ELSE IF exp THEN CmpVal(kind, "ok", got)
                             ELSE IF got \in {"err", "na"} THEN <<>> ELSE <<Verdict(kind, "err", got)>>
         (* recombinations enumerated from the symbolic model (GenSym.tla) carry its verdict: the   *)
@@ -289,8 +292,8 @@ JudgeVerify(e) ==
         \o (IF e.res = "panic" THEN <<>> ELSE CmpVal("verify_outcome", want, e.res))
         \o entry("verify_vk_sig", e.vk_sig)
         \o entry("verify_vk_ref", e.vk_ref)
-        \o (IF exp /\ e.vk_from \notin {"ok", "panic"} THEN <<Verdict("vk_from_bytes", "ok", e.vk_from)>> ELSE <<>>)
-        \o (IF exp /\ e.sig_from \notin {"ok", "panic"} THEN <<Verdict("sig_from_bytes", "ok", e.sig_from)>> ELSE <<>>)
+        \o (IF exp /\ e.vk_from \notin {"ok", "panic"} /\ ~Recorded(e) THEN <<Verdict("vk_from_bytes", "ok", e.vk_from)>> ELSE <<>>)
+        \o (IF exp /\ e.sig_from \notin {"ok", "panic"} /\ ~Recorded(e) THEN <<Verdict("sig_from_bytes", "ok", e.sig_from)>> ELSE <<>>)
 
 (* ======================================================================= *)
 (* lifetime                                                                *)
